@@ -1,3 +1,247 @@
-import PrimitivModel.Model.KernelsMove
+import PrimitivModel.Lemmas.MovePlans
+import PrimitivModel.Lemmas.MoveKernels
+/-
+C11 — memory safety of the kernels of the `kernels` family, as far as it is
+index arithmetic: under the front-end guard of each public entry point
+(`Move.Front.<k> … = .ok …`), every index the kernel reads is below the size of
+the tensor read, every index it writes is below the size of the tensor written
+(`Moves.InBounds src dst` / `Reduce.InBounds src`), and a forward kernel writes
+every element of its raw (uninitialised) output tensor (`Moves.WritesAll`).
+Shapes are arbitrary well-formed shapes (`MoveShape.WF`: what the `Shape`
+constructor yields, `MoveShape.new_ok`, and every shape rule preserves): depth
+0..8, size-1 axes anywhere, any batch combination the guard admits, any axis
+argument.  `ids.length < W`, `offset < W`: the arguments are `std::uint32_t`s /
+a vector that fits in memory.
+(Shared with C10: `Guard.<entry>_sound` is the same statement.)
+-/
 namespace Primitiv.C11.Move
+open Primitiv Primitiv.Move Primitiv.Move.Front Primitiv.MoveShape
+
+/-! ### slice -/
+
+theorem Kernel.slice_fw_in_bounds {x ys : Shape} {dim lower upper : Nat} {m : Moves} (hx : WF x)
+    (h : Front.sliceFw x dim lower upper = .ok (ys, m)) : m.InBounds x.size ys.size := by
+  have ⟨hl, hu, hy, _, _, hm, hxs, hys⟩ := sliceFw_plan hx h
+  rw [hm, hxs, hys]
+  exact sliceFw_bounds (by omega) (lo_pos hx dim) (by omega)
+
+theorem Kernel.slice_fw_writes_all {x ys : Shape} {dim lower upper : Nat} {m : Moves} (hx : WF x)
+    (h : Front.sliceFw x dim lower upper = .ok (ys, m)) : m.WritesAll ys.size ∧ m.WritesOnce := by
+  have ⟨_, _, _, _, _, hm, _, hys⟩ := sliceFw_plan hx h
+  rw [hm, hys]
+  exact writesAll_of_id (fun _ => rfl) (sliceFw_count _ _)
+
+example : Front.sliceFw ⟨[3, 2], 2, 6⟩ 1 1 2 = .ok (⟨[3], 2, 3⟩, sliceFwMoves 3 3 6 2 1) := by rfl
+
+theorem Kernel.slice_bw_in_bounds {sy sx : Shape} {dim offset : Nat} {p : SliceBwPlan} (hy : WF sy) (hx : WF sx)
+    (hoff : offset < W) (h : Front.sliceBw sy sx dim offset = .ok p) : p.moves.InBounds sy.size sx.size := by
+  have ⟨_, hcomp, hg, hxs, hys, hp⟩ := sliceBw_plan hy hx hoff h
+  have hfit : lo sx dim * sx.get dim * up sx dim * sx.batch < W := by
+    rw [← (hx.toView dim).volume]; exact hx.fits
+  rcases hp with ⟨_, hy1, hx1, _, rfl⟩ | ⟨_, rfl⟩
+  · rw [hxs, hys, hy1, hx1]
+    simp only [Nat.mul_one, SliceBwPlan.moves]
+    exact inplaceAdd_bounds (Nat.mul_pos (lo_pos hx dim) (up_pos hx dim)) hx.bpos hy.bpos hcomp
+  · rw [hxs, hys]
+    exact sliceBw_bounds hg (lo_pos hx dim) (hy.pos dim) (up_pos hx dim) hx.bpos hy.bpos hcomp hfit
+
+/-- The guard of the pinned tree (`offset + sy[dim] > sx[dim]` with a 32-bit
+sum) does not protect the kernel: `slice_bw(gy = [2], 0, 0xffffffff, gx = [4])`
+passes it and the first write index is far outside `gx`.  (Defect #4 of
+DESIGN.md section 4; repaired by patches/fix-slice-bw-wrap.diff.) -/
+theorem Kernel.slice_bw_pinned_guard_unsound :
+    ∃ sy sx dim offset p, WF sy ∧ WF sx ∧ offset < W ∧ Front.sliceBwPinned sy sx dim offset = .ok p ∧
+      ¬ p.moves.InBounds sy.size sx.size := by
+  refine ⟨⟨[2], 1, 2⟩, ⟨[4], 1, 4⟩, 0, 4294967295, .kernel (sliceBwMoves 1 2 4 1 1 0 0 4294967295), ?_, ?_, by decide, by rfl, ?_⟩
+  · exact (new_ok (dims := [2]) (b := 1) (by decide)).1
+  · exact (new_ok (dims := [4]) (b := 1) (by decide)).1
+  · intro hb
+    have := (hb 0 (by decide)).2
+    revert this; decide
+
+theorem Kernel.batch_slice_bw_pinned_guard_unsound :
+    ∃ sy sx offset m, WF sy ∧ WF sx ∧ offset < W ∧ Front.batchSliceBwPinned sy sx offset = .ok m ∧
+      ¬ m.InBounds sy.size sx.size := by
+  refine ⟨⟨[], 2, 1⟩, ⟨[], 4, 1⟩, 4294967295, batchSliceBwMoves 1 2 4294967295, ?_, ?_, by decide, by rfl, ?_⟩
+  · exact (new_ok (dims := []) (b := 2) (by decide)).1
+  · exact (new_ok (dims := []) (b := 4) (by decide)).1
+  · intro hb
+    have := (hb 0 (by decide)).2
+    revert this; decide
+
+/-! ### pick -/
+
+theorem Kernel.pick_fw_in_bounds {x ys : Shape} {ids : List Nat} {dim : Nat} {m : Moves} (hx : WF x)
+    (hlen : ids.length < W) (h : Front.pickFw x ids dim = .ok (ys, m)) :
+    m.InBounds x.size ys.size ∧ Front.pickIdsOk ys.batch ids = true := by
+  have ⟨_, hpos, hcomp, hids, _, hb, _, hm, hxs, hys⟩ := pickFw_plan hx hlen h
+  refine ⟨?_, ?_⟩
+  · rw [hm, hxs, hys]
+    exact pick_bounds (lo_pos hx dim) (up_pos hx dim) hx.bpos hpos hcomp hids
+  · unfold Front.pickIdsOk
+    simp only [List.all_eq_true, List.mem_range, decide_eq_true_eq]
+    intro b hb'
+    rw [hb] at hb'
+    exact (pick_id_ok hpos hcomp hids hx.bpos hb').1
+
+theorem Kernel.pick_fw_writes_all {x ys : Shape} {ids : List Nat} {dim : Nat} {m : Moves} (hx : WF x)
+    (hlen : ids.length < W) (h : Front.pickFw x ids dim = .ok (ys, m)) : m.WritesAll ys.size ∧ m.WritesOnce := by
+  have ⟨_, _, _, _, _, _, _, hm, _, hys⟩ := pickFw_plan hx hlen h
+  rw [hm, hys]
+  exact writesAll_of_id (fun _ => rfl) (pick_count _ _ _ _ _ _ _)
+
+theorem Kernel.pick_bw_in_bounds {gy gx : Shape} {ids : List Nat} {dim : Nat} {m : Moves} (hy : WF gy) (hx : WF gx)
+    (hlen : ids.length < W) (h : Front.pickBw gy gx ids dim = .ok m) :
+    m.InBounds gy.size gx.size ∧ Front.pickIdsOk gy.batch ids = true := by
+  have ⟨_, hpos, hcomp, hids, hb, _, hm, hxs, hys⟩ := pickBw_plan hy hx hlen h
+  refine ⟨?_, ?_⟩
+  · rw [hm, hxs, hys]
+    exact Moves.swap_inBounds (pick_bounds (lo_pos hx dim) (up_pos hx dim) hx.bpos hpos hcomp hids)
+  · unfold Front.pickIdsOk
+    simp only [List.all_eq_true, List.mem_range, decide_eq_true_eq]
+    intro b hb'
+    rw [hb] at hb'
+    exact (pick_id_ok hpos hcomp hids hx.bpos hb').1
+
+/-! ### flip -/
+
+theorem Kernel.flip_fw_in_bounds {x ys : Shape} {dim : Nat} {m : Moves} (hx : WF x)
+    (h : Front.flipFw x dim = .ok (ys, m)) : m.InBounds x.size ys.size := by
+  have ⟨rfl, hm, hxs⟩ := flipFw_plan hx h
+  rw [hm, hxs]
+  exact flip_bounds (hx.pos dim) (lo_pos hx dim)
+
+theorem Kernel.flip_fw_writes_all {x ys : Shape} {dim : Nat} {m : Moves} (hx : WF x)
+    (h : Front.flipFw x dim = .ok (ys, m)) : m.WritesAll ys.size ∧ m.WritesOnce := by
+  have ⟨rfl, hm, hxs⟩ := flipFw_plan hx h
+  rw [hm, hxs]
+  exact flip_writes (hx.pos dim) (lo_pos hx dim)
+
+theorem Kernel.flip_bw_in_bounds {gy gx : Shape} {dim : Nat} {m : Moves} (hy : WF gy) (hx : WF gx)
+    (h : Front.flipBw gy gx dim = .ok m) : m.InBounds gy.size gx.size := by
+  have ⟨hs, hm, hxs⟩ := flipBw_plan hy hx h
+  rw [hm, hs, hxs]
+  exact flip_bounds (hx.pos dim) (lo_pos hx dim)
+
+/-! ### sum, max, min, argmax, argmin, broadcast -/
+
+/-- sum_fw, max_fw, min_fw: reads in bounds, and exactly the elements of the
+output are written (`dest[i]`, `i < repeat = y.size`). -/
+theorem Kernel.reduce_fw_in_bounds {x ys : Shape} {dim : Nat} {r : Reduce} (hx : WF x)
+    (h : Front.reduceFw x dim = .ok (ys, r)) : r.InBounds x.size ∧ r.rep = ys.size ∧ 0 < r.n := by
+  have ⟨_, _, _, _, hr, hxs, hys⟩ := reduceFw_plan hx h
+  rw [hr, hxs, hys]
+  exact ⟨axisReduce_bounds (lo_pos hx dim), rfl, hx.pos dim⟩
+
+theorem Kernel.max_bw_in_bounds {x y gy gx : Shape} {dim : Nat} {r : Reduce} (hx : WF x) (hy : WF y) (hgy : WF gy)
+    (hgx : WF gx) (h : Front.maxBw x y gy gx dim = .ok r) :
+    r.InBounds x.size ∧ r.InBounds gx.size ∧ r.rep = y.size ∧ r.rep = gy.size := by
+  have ⟨_, _, hr, hxs, hgxs, hys, hgys⟩ := maxBw_plan hx hy hgy hgx h
+  rw [hgxs, hgys, hr, hxs, hys]
+  exact ⟨axisReduce_bounds (lo_pos hx dim), axisReduce_bounds (lo_pos hx dim), rfl, rfl⟩
+
+/-- argmax / argmin have no front-end guard at all, for any axis argument -/
+theorem Kernel.argmax_in_bounds {x : Shape} (hx : WF x) (dim : Nat) :
+    (Front.argReduce x dim).InBounds x.size ∧ 0 < (Front.argReduce x dim).n := by
+  have ⟨hr, hxs⟩ := argReduce_plan hx dim
+  rw [hr, hxs]
+  exact ⟨axisReduce_bounds (lo_pos hx dim), hx.pos dim⟩
+
+theorem Kernel.broadcast_fw_in_bounds {x ys : Shape} {dim size : Nat} {m : Moves} (hx : WF x)
+    (h : Front.broadcastFw x dim size = .ok (ys, m)) : m.InBounds x.size ys.size := by
+  have ⟨_, _, hs, _, _, _, hm, hxs, hys⟩ := broadcastFw_plan hx h
+  rw [hm, hxs, hys]
+  exact broadcast_bounds hs (lo_pos hx dim)
+
+theorem Kernel.broadcast_fw_writes_all {x ys : Shape} {dim size : Nat} {m : Moves} (hx : WF x)
+    (h : Front.broadcastFw x dim size = .ok (ys, m)) : m.WritesAll ys.size ∧ m.WritesOnce := by
+  have ⟨_, _, hs, _, _, _, hm, _, hys⟩ := broadcastFw_plan hx h
+  rw [hm, hys]
+  exact broadcast_writes hs (lo_pos hx dim)
+
+/-! ### transpose -/
+
+theorem Kernel.transpose_fw_in_bounds {x ys : Shape} {m : Moves} (hx : WF x)
+    (h : Front.transposeFw x = .ok (ys, m)) : m.InBounds x.size ys.size := by
+  have ⟨_, _, _, _, _, _, hm, hxs, hys⟩ := transposeFw_plan hx h
+  rw [hm, hxs, hys]
+  exact transpose_bounds _ _ _
+
+theorem Kernel.transpose_fw_writes_all {x ys : Shape} {m : Moves} (hx : WF x)
+    (h : Front.transposeFw x = .ok (ys, m)) : m.WritesAll ys.size ∧ m.WritesOnce := by
+  have ⟨_, _, _, _, _, _, hm, _, hys⟩ := transposeFw_plan hx h
+  rw [hm, hys]
+  exact transpose_writes (hx.pos 0) (hx.pos 1)
+
+/-! ### batch kernels -/
+
+theorem Kernel.batch_pick_fw_in_bounds {x ys : Shape} {ids : List Nat} {m : Moves} (hx : WF x) (hlen : ids.length < W)
+    (h : Front.batchPickFw x ids = .ok (ys, m)) :
+    m.InBounds x.size ys.size ∧ ys.batch ≤ ids.length ∧ m.WritesAll ys.size ∧ m.WritesOnce := by
+  have ⟨_, hids, _, hb, _, hm, hxs, hys⟩ := batchPickFw_plan hx hlen h
+  rw [hm, hxs, hys]
+  exact ⟨batchPick_bounds hids, by omega, writesAll_of_id (fun _ => rfl) (by simp [batchPickMoves, Nat.mul_comm])⟩
+
+theorem Kernel.batch_pick_bw_in_bounds {gy gx : Shape} {ids : List Nat} {m : Moves} (hy : WF gy) (hx : WF gx)
+    (hlen : ids.length < W) (h : Front.batchPickBw gy gx ids = .ok m) :
+    m.InBounds gy.size gx.size ∧ gy.batch ≤ ids.length := by
+  have ⟨_, hids, hb, _, hm, hxs, hys⟩ := batchPickBw_plan hy hx hlen h
+  rw [hm, hxs, hys]
+  exact ⟨Moves.swap_inBounds (batchPick_bounds hids), by omega⟩
+
+theorem Kernel.batch_slice_fw_in_bounds {x ys : Shape} {lower upper : Nat} {m : Moves} (hx : WF x)
+    (h : Front.batchSliceFw x lower upper = .ok (ys, m)) :
+    m.InBounds x.size ys.size ∧ m.WritesAll ys.size ∧ m.WritesOnce := by
+  have ⟨_, _, _, _, _, hm, hxs, hys⟩ := batchSliceFw_plan hx h
+  rw [hm, hxs, hys]
+  exact ⟨batchSliceFw_bounds (by omega), writesAll_of_id (fun _ => rfl) rfl⟩
+
+theorem Kernel.batch_slice_bw_in_bounds {sy sx : Shape} {offset : Nat} {m : Moves} (hy : WF sy) (hx : WF sx)
+    (hoff : offset < W) (h : Front.batchSliceBw sy sx offset = .ok m) : m.InBounds sy.size sx.size := by
+  have ⟨_, hg, _, hm, hxs, hys⟩ := batchSliceBw_plan hy hx hoff h
+  rw [hm, hxs, hys]
+  exact batchSliceBw_bounds hg hx.fits
+
+theorem Kernel.batch_sum_fw_in_bounds {x ys : Shape} {r : Reduce} (hx : WF x)
+    (h : Front.batchSumFw x = .ok (ys, r)) : r.InBounds x.size ∧ r.rep = ys.size := by
+  have ⟨_, _, _, hr, hxs, hys⟩ := batchSumFw_plan hx h
+  rw [hr, hxs, hys]
+  exact ⟨batchSum_bounds _ _, rfl⟩
+
+/-! ### copy, identity, creation -/
+
+theorem Kernel.copy_in_bounds (n : Nat) :
+    (copyMoves n).InBounds n n ∧ (copyMoves n).WritesAll n ∧ (copyMoves n).WritesOnce :=
+  ⟨copy_bounds n, writesAll_of_id (fun _ => rfl) rfl⟩
+
+theorem Kernel.identity_in_bounds {size : Nat} {ys : Shape} (h : Front.identity size = .ok ys) :
+    ys.size = size * size ∧ ∀ i, i < size → i * (size + 1) < ys.size := by
+  unfold Front.identity at h
+  split at h
+  · cases h
+  · have ⟨hy, hb, hg, _, hlen⟩ := new_ok h
+    have hm : ys.isMatrix = true := by
+      unfold Shape.isMatrix Shape.depth; simp only [decide_eq_true_eq]; exact hlen
+    have hs : ys.size = size * size := by
+      rw [hy.size_eq, matrix_volume hy hm, hb, hg, hg]; simp [List.getD]
+    exact ⟨hs, fun i hi => by rw [hs]; exact identity_bounds hi⟩
+
+/-! ### new_handle (defect #9 of DESIGN.md section 4, read, never run) -/
+
+/-- On the pinned tree `mem_size` is a `std::uint32_t`: a shape the constructor
+admits (2^30 elements) asks for 0 bytes. -/
+theorem NewHandle.pinned_truncates :
+    ∃ s, WF s ∧ Front.memSizePinned s < 4 * s.size := by
+  refine ⟨⟨[32768, 32768], 1, 1073741824⟩, (new_ok (dims := [32768, 32768]) (b := 1) (by decide)).1, by decide⟩
+
+/-- With `std::size_t` (patches/fix-new-handle-size.diff) the byte count is exact
+for every shape. -/
+theorem NewHandle.size_t_exact {s : Shape} (hs : WF s) : Front.memSize s = 4 * s.size := by
+  unfold Front.memSize
+  have : s.size < W := by rw [hs.size_eq]; exact hs.fits
+  exact Nat.mod_eq_of_lt (by
+    have h1 : W * W = 18446744073709551616 := by decide
+    have h2 : W = 4294967296 := rfl
+    omega)
+
 end Primitiv.C11.Move
